@@ -4,3 +4,4 @@ POSTCONDITION AllJudged
 INVARIANT I_C20_SameEffect
 INVARIANT I_C20_SamePayload
 INVARIANT I_C20_SameProps
+INVARIANT I_C20_CreateSameEffect
